@@ -213,3 +213,62 @@ def h_gate_definitions(ctx, cfg):
     for i, t in enumerate(tests):
         val = eval(compile(ast.Expression(t), "_code_data.py", "eval"), {"sys": fake_sys})
         ctx.prove("inline_test_selects_the_posonly_branch_exactly_from_3.8#%d" % i, z3.BoolVal(bool(val) == (ver[:2] >= (3, 8))), detail="%s -> %r under %r" % (ast.unparse(t), val, ver))
+
+
+EQUAL_BUT_DISTINCT = [((1, 2), (1.0, 2.0)), (0.0, -0.0), ((True, False), (1, 0)), (1, True), (1, 1.0), ((0.0, 1), (-0.0, True)), (frozenset([1]), frozenset([1.0])), (b"x", b"x"), ((..., 1), (..., 1))]
+
+
+def _exact(a, b):
+    """type- and bit-exact equality"""
+    if type(a) is not type(b):
+        return False
+    if isinstance(a, float):
+        import struct
+        return struct.pack(">d", a) == struct.pack(">d", b)
+    if isinstance(a, (tuple, list)):
+        return len(a) == len(b) and all(_exact(x, y) for x, y in zip(a, b))
+    if isinstance(a, frozenset):
+        return len(a) == len(b) and all(any(_exact(x, y) for y in b) for x in a)
+    if isinstance(a, dict):
+        return list(a) == list(b) and all(_exact(a[k], b[k]) for k in a)
+    return a == b
+
+
+@harness("frame.results_depend_only_on_the_argument", props=["C12", "C05", "C07", "C02", "C14"],
+         functions=["code_data._normalize.normalize", "code_data._json_data.value_to_json", "code_data._constants.to_constant", "code_data._constants.constant_key"], configs="any", engine="E2",
+         notes="bounded (9 pairs of ==-equal but CPython-distinct values, called one after the other in one process): normalize, value_to_json, constant_key and to_constant return, for the second "
+               "value, exactly what they return for it in isolation (no stale result of an equal-looking earlier argument), and value_to_json never returns the same mutable object twice")
+def h_no_stale(ctx, cfg):
+    import types as _t
+    import code_data
+    import code_data._constants as C
+    import code_data._json_data as J
+    import code_data._normalize as N
+    from code_data import Constant
+    for a, b in EQUAL_BUT_DISTINCT:
+        ra, rb = N.normalize(a), N.normalize(b)
+        ctx.prove("normalize.second_of_an_equal_pair_is_not_a_stale_result", z3.BoolVal(_exact(ra, a) and _exact(rb, b)), detail="%r, %r -> %r, %r" % (a, b, ra, rb))
+        ca, cb = N.normalize(Constant(a, 1)), N.normalize(Constant(b, 2))
+        ctx.prove("normalize.constant_payload_kept_exactly", z3.BoolVal(_exact(ca.constant, a) and _exact(cb.constant, b)))
+        ja, jb = J.value_to_json(a), J.value_to_json(b)
+        ja2, jb2 = J.value_to_json(a), J.value_to_json(b)
+        ctx.prove("value_to_json.second_of_an_equal_pair_is_not_a_stale_result", z3.BoolVal(_exact(jb, jb2) and _exact(ja, ja2) and _exact(J.constant_value_from_json(jb), b) and _exact(J.constant_value_from_json(ja), a)),
+                  detail="%r -> %r ; %r -> %r" % (a, ja, b, jb))
+        for x, y in ((ja, ja2), (jb, jb2)):
+            if isinstance(x, (dict, list)):
+                ctx.prove("value_to_json.returns_a_fresh_container_every_time", z3.BoolVal(x is not y))
+        ka, kb = C.constant_key(a), C.constant_key(b)
+        ctx.prove("constant_key.distinct_for_the_distinct_pair", z3.BoolVal((ka == kb) == _exact(a, b)))
+    e1, e2 = J.value_to_json(...), J.value_to_json(...)
+    ctx.prove("value_to_json.ellipsis_encoding_is_fresh", z3.BoolVal(e1 is not e2 and e1 == e2))
+    # to_constant: two code objects that compare equal (code equality ignores file name and line table) must each be decoded
+    saved = code_data.CodeData.from_code
+    calls = []
+    try:
+        code_data.CodeData.from_code = classmethod(lambda cls, c: (calls.append(c), ("decoded", c.co_filename, id(c)))[1])
+        c1 = compile("def f():\n    return 1\n", "a.py", "exec").co_consts[0]
+        c2 = compile("def f():\n    return 1\n", "b.py", "exec").co_consts[0]
+        r1, r2 = C.to_constant(c1), C.to_constant(c2)
+        ctx.prove("to_constant.equal_looking_code_objects_are_each_decoded", z3.BoolVal(c1 == c2 and r1 == ("decoded", "a.py", id(c1)) and r2 == ("decoded", "b.py", id(c2)) and len(calls) == 2), detail=repr((r1, r2)))
+    finally:
+        code_data.CodeData.from_code = saved
